@@ -68,6 +68,13 @@ func newNamer() *namer {
 		ImageSampleBaseClampToEdgeFunc,
 		DynamicBufferOffsetsPrefix,
 		ImageStorageLoadScalarWrapper,
+		// spellings the writer actually emits for the abs/neg/float-to-int helpers
+		"naga_abs",
+		"naga_neg",
+		"naga_f2i32",
+		"naga_f2u32",
+		"naga_f2i64",
+		"naga_f2u64",
 	}
 
 	for _, name := range helperNames {
